@@ -43,7 +43,7 @@ def build_harness():
     env = dict(os.environ, CARGO_NET_OFFLINE='true')
     r = sh(['cargo', 'build', '--offline'], cwd=HARNESS, env=env)
     if r.returncode != 0:
-        sys.stdout.write(r.stdout[-4000:])
+        sys.stdout.write('\n'.join(l for l in r.stdout.splitlines() if 'error' in l.lower())[-3000:] + r.stdout[-1500:])
         raise ToolError('harness build failed (does /repo still compile?)')
     return VH
 
